@@ -3,6 +3,7 @@ pub mod gen_osu;
 mod out;
 mod proto;
 mod registry;
+mod render;
 mod rng;
 pub mod util;
 
@@ -10,6 +11,10 @@ use std::path::PathBuf;
 
 fn main() {
     let args: Vec<String> = std::env::args().collect();
+    if args.len() == 4 && args[1] == "render" {
+        render::render_file(&args[2], &args[3]);
+        return;
+    }
     if args.len() < 6 || args[1] != "gen" {
         eprintln!("usage: rmh gen <property> <tier> <seed> <outdir>");
         std::process::exit(2);
